@@ -703,7 +703,11 @@ def identical(a, b):
         if a is None and b is None:
             return True
         other = b if a is None else a
-        return False if other is not None else True
+        if isinstance(other, SymFn):
+            return sbool(other.ref == 0)
+        return False
+    if isinstance(a, SymFn) and isinstance(b, SymFn):
+        return sbool(a.ref == b.ref)
     if isinstance(a, (Obj, PyList, PyDict, PySet, BuiltinType, ClassVal, FuncVal, Opaque, Closure)) or \
        isinstance(b, (Obj, PyList, PyDict, PySet, BuiltinType, ClassVal, FuncVal, Opaque, Closure)):
         if isinstance(a, ClassVal) and isinstance(b, ClassVal):
@@ -838,6 +842,8 @@ def truth_basic(v):
         return sbool(v.size > 0)
     if isinstance(v, (FuncVal, Bound, Closure, Builtin, Opaque, ClassVal, BuiltinType, ModuleVal, OpaqueStr)):
         return True
+    if isinstance(v, SymFn):
+        return sbool(v.ref != 0)
     return NotImplemented
 
 
